@@ -246,41 +246,46 @@ func (P *Prog) checkZeroBinding(r *Result, sites []*ssa.Function) {
 		}
 		var preds []string
 		var argClasses []string
-		eachInstr(fn, func(_ *ssa.BasicBlock, _ int, in ssa.Instruction) {
-			iff, ok := in.(*ssa.If)
-			if !ok {
-				return
-			}
-			c := iff.Cond
-			if u, ok := c.(*ssa.UnOp); ok && u.Op == token.NOT {
-				c = u.X
-			}
-			call, ok := c.(*ssa.Call)
-			if !ok {
-				return
-			}
-			ci := callOf(call)
-			name := ""
-			if ci.static != nil {
-				name = ci.static.Name()
-			} else if ci.dynamic {
-				if _, isP := cv(call.Call.Value).(*ssa.Parameter); isP {
-					name = "<predicate parameter>"
-				}
-			}
-			switch name {
-			case "IsParseZeroValue", "IsZeroValue", "IsNil", "IsValid", "<predicate parameter>":
-				cls := ""
-				for _, rt := range P.rootsOf(call.Call.Args[0]) {
-					cls = P.classify(rt).class.String()
-				}
-				if mode == "process" && (name == "IsNil" || name == "IsValid") && cls == mcDest.String() {
-					return // allocation check of the destination pointer, not an absence decision
-				}
-				preds = append(preds, name)
-				argClasses = append(argClasses, cls)
-			}
-		})
+		// over the code units of the site (a helper such as `sourceSlice(ctx)` that decides absence for it)
+		for _, unit := range P.nodeUnits(fn) {
+			unit.with(func() {
+				eachInstr(unit.fn, func(_ *ssa.BasicBlock, _ int, in ssa.Instruction) {
+					iff, ok := in.(*ssa.If)
+					if !ok {
+						return
+					}
+					c := cv(iff.Cond)
+					if u, ok := c.(*ssa.UnOp); ok && u.Op == token.NOT {
+						c = cv(u.X)
+					}
+					call, ok := c.(*ssa.Call)
+					if !ok {
+						return
+					}
+					ci := callOf(call)
+					name := ""
+					if ci.static != nil {
+						name = ci.static.Name()
+					} else if ci.dynamic {
+						if _, isP := cv(call.Call.Value).(*ssa.Parameter); isP {
+							name = "<predicate parameter>"
+						}
+					}
+					switch name {
+					case "IsParseZeroValue", "IsZeroValue", "IsNil", "IsValid", "<predicate parameter>":
+						cls := ""
+						for _, rt := range P.rootsOf(call.Call.Args[0]) {
+							cls = P.classify(rt).class.String()
+						}
+						if mode == "process" && (name == "IsNil" || name == "IsValid") && cls == mcDest.String() {
+							return // allocation check of the destination pointer, not an absence decision
+						}
+						preds = append(preds, name)
+						argClasses = append(argClasses, cls)
+					}
+				})
+			})
+		}
 		c := fname(fn)
 		okb := true
 		why := ""
